@@ -97,6 +97,31 @@ func (e *Engine) verifyFunction(fn *ssa.Function, ct *Contract, sweepOnly bool) 
 			}
 		}
 	}
+	var shown []ModelVar
+	if showExprs != "" && !exit.pc.IsFalse() {
+		for _, src := range strings.Split(showExprs, ";") {
+			se, err := parseSpec(src)
+			if err != nil {
+				continue
+			}
+			vars := x.frameVars(fr, true)
+			x.bindResults(fn, results, vars)
+			env := x.newEnv(fr, exit, x.entry, vars, fn)
+			tv := env.eval(se)
+			if env.err != nil {
+				fmt.Println("show:", src, env.err)
+				continue
+			}
+			if ts, ok := flatten(tv.V); ok {
+				for i, t := range ts {
+					c := vc.Fresh("show", t.Sort)
+					vc.Assert(Eq(c, t))
+					shown = append(shown, ModelVar{fmt.Sprintf("SHOW %s#%d", strings.TrimSpace(src), i), c})
+				}
+			}
+		}
+		vc.inputs = append(shown, vc.inputs...)
+	}
 	if ct != nil && !exit.pc.IsFalse() {
 		for _, en := range ct.Ensures {
 			if ct.Opts["assume-ensures"] != "" {
@@ -142,7 +167,7 @@ func (x *Exec) registerInputs(name string, v Value, t types.Type, st *State, dep
 	case VTerm:
 		if vv.T.Sort == SStr {
 			add(name+".len", sLen(vv.T))
-			for i := 0; i < 12; i++ {
+			for i := 0; i < 12 && depth == 0; i++ {
 				add(fmt.Sprintf("%s[%d]", name, i), app(SInt, "sAt", vv.T, IntLit(int64(i))))
 			}
 			return
